@@ -388,6 +388,27 @@ class sx_set(metaclass=_TypeShim):
 
 # ------------------------------------------------------------------------------------------------
 # rewritten operations (see loader.py)
+def sx_any(it):
+    """any() over a materialised sequence with symbolic items: ONE disjunction instead of a fork per item"""
+    if _ri(it, (list, tuple, SymBytes)) :
+        items = list(it)
+        if any(_issym(x) for x in items):
+            if any((not _issym(x)) and x for x in items):
+                return True
+            return bool(core.Or(*[(x != 0) if _ri(x, SymInt) else x for x in items if _issym(x)]))
+    return any(it)
+
+
+def sx_all(it):
+    if _ri(it, (list, tuple, SymBytes)):
+        items = list(it)
+        if any(_issym(x) for x in items):
+            if any((not _issym(x)) and not x for x in items):
+                return False
+            return bool(core.And(*[(x != 0) if _ri(x, SymInt) else x for x in items if _issym(x)]))
+    return all(it)
+
+
 def sx_contains(a, b):
     if _ri(a, (SymInt, SymBool)):
         if _ri(b, (dict, list, tuple, set, frozenset)) or type(b).__name__ in ("dict_keys", "dict_values"):
@@ -728,7 +749,7 @@ SHIM.update(
     isinstance=sx_isinstance, issubclass=sx_issubclass, int=sx_int, bool=sx_bool, bytes=sx_bytes,
     bytearray=sx_bytearray, memoryview=sx_memoryview, len=sx_len, abs=sx_abs, max=sx_max, min=sx_min,
     sum=sx_sum, divmod=sx_divmod, pow=sx_pow, round=sx_round, hex=sx_hex, bin=sx_bin, oct=sx_oct,
-    sorted=sx_sorted, set=sx_set, sx_truth_=sx_truth, sx_concrete_=lambda x: x.__index__() if _issym(x) else x, sx_contains_=sx_contains, sx_getitem_=sx_getitem, sx_join_=sx_join,
+    sorted=sx_sorted, set=sx_set, sx_truth_=sx_truth, any=sx_any, all=sx_all, sx_concrete_=lambda x: x.__index__() if _issym(x) else x, sx_contains_=sx_contains, sx_getitem_=sx_getitem, sx_join_=sx_join,
     sx_real_int_=int, sx_real_str_=str, sx_real_bytes_=bytes, sx_real_float_=float, sx_real_bool_=bool,
     sx_real_bytearray_=bytearray,
 )
